@@ -570,6 +570,8 @@ def apply_history(rng, cfg):
         B["mode_no"] = int(cfg["mode_no"] + rng.choice([1, 9, 30]))
     if "seed" in names:
         B["seed"] = int(rng.integers(0, 2 ** 31 - 1))
+    if cfg["cls"] in TPL and "len_scale" in names and "var" not in names:
+        names.append("var")          # var = var_raw * var_factor(len_scale): len_scale alone would change var; re-assign var too
     first = [n for n in ("len_scale", "var") if n in names]          # var last of the two: var = var_raw * var_factor(len_scale)
     rest = [n for n in names if n not in first]
     rng.shuffle(rest)
